@@ -27,6 +27,9 @@ def run(ctx):
     r3(ctx)
     _alias(ctx, c03.r2, "C03.R2", "C11.R4")
     r4(ctx)
+    ctx.rule("C11.R5", "K1", "(= C10.R2) the timeout the scanner and the workers use is the configured one after every reload: setup() refreshes it, nothing derived from the configuration lives in __init__ only")
+    from .c10 import setup_refresh
+    setup_refresh(ctx, "C11.R5", (("timeout", "timeout"),))
 
 
 def clocks_in(repo, f, node=None):
